@@ -28,8 +28,11 @@ ASSUMPTIONS = [
     "extensions on inputs the model deems fine, OS errors from sendto and CPU exhaustion by floods of valid hellos are outside",
     "no-amplification is proved structurally (an unpromoted connection is never CONNECTED, so it emits no keep-alives; the hello handler "
     "queues at most the one SERVER_HELLO per accepted hello; strangers without a hello get nothing) and measured in bytes by the monitor "
-    "(a hello is accepted only at the full padded datagram size - C14_clientHello_fixed_size - and the SERVER_HELLO is ~330 bytes); the "
-    "byte inequality itself depends on DER sizes and is not a Lean theorem (partial)",
+    "(a hello is accepted only at the full padded datagram size - C14_clientHello_fixed_size - and the SERVER_HELLO is ~330 bytes); since "
+    "repair 8599f81 the byte inequality is a theorem at the message level (C11_hello_reply_once: the queued reply is no longer than the hello "
+    "it answers, both carried in the same 26-byte CRC framing; C11_short_hello_not_answered: otherwise nothing is queued and no key or token "
+    "is kept); its sum over a whole run (bytes sent to an unpromoted address <= bytes received from it) is what the monitor measures and is "
+    "not a Lean theorem (partial)",
 ]
 RULE = ("the REAL server loop (see C10) with honest echo clients running throughout and hostile streams from many addresses: random bytes of "
         "every length 0..2000, valid headers with garbage bodies, truncated and complete hellos from strangers, everything also from "
